@@ -14,9 +14,9 @@ MC_StatusAll   == {[base |-> 1, height |-> T], [base |-> 1, height |-> T - 2], [
                    [base |-> 2, height |-> T]}
 MC_StatusLive  == {[base |-> 1, height |-> T], [base |-> 1, height |-> T + 2]}
 
-MC_LieCommit == {"W", "WC", "noQuorum", "padBad", "padAddr", "addrEarly"}
+MC_LieCommit == {"W", "WC", "noQuorum", "padBad", "padAddr", "addrEarly", "nilAddr"}
 MC_LieAll    == {"W", "WC", "commitH", "quorumOnly", "noQuorum", "badEarly", "padBad", "padNil", "padAddr",
-                 "addrEarly", "shortSet", "heightUp", "heightDown"}
+                 "addrEarly", "shortSet", "nilAddr", "heightUp", "heightDown"}
 MC_LieHash   == {"W", "WC", "commitH", "padBad"}
-MC_LieSmall  == {"W", "padBad", "heightUp"}
+MC_LieSmall  == {"W", "padBad", "nilAddr", "heightUp"}
 =============================================================================
